@@ -227,6 +227,9 @@ func (x *c16World) payloads(url string, rngSeed uint64) []payload {
 		p, _ := c.App.GovKeeper.Params.Get(ctx)
 		p.BurnVoteVeto = !p.BurnVoteVeto
 		add("params", &govv1.MsgUpdateParams{Params: p})
+		p2, _ := c.App.GovKeeper.Params.Get(ctx)
+		p2.ExpeditedMinDeposit = sdk.NewCoins(chain.FXCoin(20_000))
+		add("expedited-deposit-in-fx", &govv1.MsgUpdateParams{Params: p2})
 	case sdk.MsgTypeURL(&crisistypes.MsgUpdateParams{}):
 		add("fee", &crisistypes.MsgUpdateParams{ConstantFee: chain.FXCoin(int64(1 + rng.IntN(100)))})
 	case sdk.MsgTypeURL(&consensustypes.MsgUpdateParams{}):
@@ -389,15 +392,17 @@ func runC16(cs core.Case, verbose bool) core.CaseResult {
 		pb := c.Branch()
 		pr := c.MsgOn(pb, pl.msg)
 		if !pr.OK() {
+			// (the hostile authorities are tried all the same: whatever the governance account may not do,
+			// nobody else may)
 			res.Count("positive_controls_failed", 1)
 			uncovered = append(uncovered, url+"["+pl.label+"]: "+short(pr.ErrString()))
-			return
+		} else {
+			res.Count("positive_controls_ok", 1)
+			if len(chain.Diff(base, c.Dump(pb))) == 0 {
+				res.Count("positive_control_without_effect", 1)
+			}
+			res.AddSig(url + "/" + pl.label)
 		}
-		res.Count("positive_controls_ok", 1)
-		if len(chain.Diff(base, c.Dump(pb))) == 0 {
-			res.Count("positive_control_without_effect", 1)
-		}
-		res.AddSig(url + "/" + pl.label)
 		labels := make([]string, 0, len(hostile))
 		for label := range hostile {
 			labels = append(labels, label)
